@@ -15,7 +15,12 @@ git -C /repo worktree add -q --detach $WT HEAD || exit 2
 OUT=/tmp/benignout.$$; mkdir -p $OUT
 cleanup() { git -C /repo worktree remove --force $WT 2>/dev/null; rm -rf $OUT /tmp/benignrun.$$; }
 trap cleanup EXIT
-git -C $WT apply $DIFF || { echo "patch does not apply"; exit 3; }
+if ! git -C $WT apply $DIFF 2>/dev/null; then
+  BASE=$(python3 -c "import json; print(json.load(open('$(dirname $DIFF)/meta.json')).get('base_commit',''))" 2>/dev/null)
+  [ -n "$BASE" ] || { echo "patch does not apply"; exit 3; }
+  echo "patch does not apply to HEAD; using the commit it was written against ($BASE)"
+  git -C $WT checkout -q --detach $BASE && git -C $WT apply $DIFF || { echo "patch does not apply"; exit 3; }
+fi
 ( cd $WT/v4 && export GOCACHE=$SCRATCH_CACHE && go build ./... && go test -vet=off -count=1 ./... 2>&1 | tail -6 ) > /tmp/benignrun.$$ 2>&1
 grep -q "FAIL\|cannot\|error" /tmp/benignrun.$$ && { echo "suite with change: FAIL"; cat /tmp/benignrun.$$; exit 3; } || echo "suite with change: PASS"
 for id in $IDS; do
